@@ -25,10 +25,16 @@ SeqsUpTo(S, n) == UNION {[1..k -> S] : k \in 0..n}
 \* ------------------------------------------------------------------ C05
 Cols5 == << [n |-> "a", ty |-> "i"], [n |-> "s", ty |-> "s"], [n |-> "c", ty |-> "b"], [n |-> "g", ty |-> "I"] >>
 Rows5 == {<<IntV(a), StrV(s), BoolV(c), IntV(a + 5)>> : a \in {1, 2}, s \in {<<A>>, <<A, B>>}, c \in BOOLEAN}
+\* strings that differ only in a run of blanks inside them (and the literals to match): whatever is done to a statement's
+\* text on its way to the executor must not touch the inside of a literal
+SpStrs5 == {<<A, 32, B>>, <<A, 32, 32, B>>}
+RowsSp5 == {<<IntV(a), StrV(s), BoolV(TRUE), IntV(a + 5)>> : a \in {1, 2}, s \in SpStrs5}
 Tables5 == {[cols |-> Cols5, rows |-> r] : r \in SeqsUpTo(Rows5, 2)}
            \cup {[cols |-> Cols5, rows |-> <<r1, r2, r1>>] : r1 \in Rows5, r2 \in Rows5}
+           \cup {[cols |-> Cols5, rows |-> <<r1, r2, r3>>] : r1 \in RowsSp5, r2 \in RowsSp5, r3 \in RowsSp5}
 Cmps5 == {Cmp(Col("", "a"), op, Lit(IntV(n))) : op \in Ops, n \in {1, 2}}
          \cup {Cmp(Col("", "s"), op, Lit(StrV(<<A, B>>))) : op \in Ops}
+         \cup {Cmp(Col("", "s"), op, Lit(StrV(sp))) : op \in {"=", "!=", "<"}, sp \in SpStrs5}
          \cup {Cmp(Col("", "c"), op, Lit(BoolV(TRUE))) : op \in {"=", "!="}}
          \cup {Cmp(Lit(IntV(7)), op, Col("", "g")) : op \in {"<", ">=", "="}}
          \cup {Cmp(Col("t5", "a"), "<", Col("", "g"))}
@@ -62,7 +68,12 @@ ListOrders5 ==
   \cup {[list |-> <<ColItem("", "a", "x"), Item("cmp", Ref("", ""), Cmp(Col("", "a"), "=", Lit(IntV(1))), ""), ColItem("", "s", "")>>, order |-> o] :
            o \in {<<>>, <<Ord("", "x", "desc")>>}}
   \cup {[list |-> <<ColItem("", "g", "a"), ColItem("", "a", "g"), Item("cmp", Ref("", ""), Cmp(Col("", "a"), ">", Lit(IntV(1))), "big")>>, order |-> o] :
-           o \in {<<>>, <<Ord("", "big", "asc"), Ord("", "g", "desc")>>}}
+           o \in {<<>>, <<Ord("", "big", "asc"), Ord("", "g", "desc")>>,
+                  \* every sort key is an alias AND the name of another column of the table: the alias wins
+                  <<Ord("", "g", "desc")>>, <<Ord("", "a", "asc"), Ord("", "g", "desc")>>}}
+  \* (g = a + 5 in every row, so the alias must name a column that sorts differently: the text column)
+  \cup {[list |-> <<ColItem("", "s", "g"), ColItem("", "a", "")>>, order |-> o] : o \in {<<Ord("", "g", "asc")>>, <<Ord("", "g", "desc"), Ord("", "a", "asc")>>}}
+  \cup {[list |-> <<ColItem("", "a", "s"), ColItem("", "s", "a")>>, order |-> o] : o \in {<<Ord("", "s", "desc")>>, <<Ord("", "a", "asc"), Ord("", "s", "asc")>>}}
 LimOffs == {[limit |-> l, offset |-> o] : l \in {-1, 0, 1, 2, 5}, o \in {-1, 0, 1, 2, 5}}
 
 \* ------------------------------------------------------------------ C06
